@@ -162,14 +162,19 @@ class MetadorMeta:
     # and do not perform validation etc.
 
     def _get_raw(
-        self, schema_name: str, version: Optional[SemVerTuple] = None
+        self,
+        schema_name: str,
+        version: Optional[SemVerTuple] = None,
+        objs: Optional[Dict[str, StoredMetadata]] = None,
     ) -> Optional[StoredMetadata]:
         """Return stored metadata for given schema at this node (or None).
 
         If a version is passed, the stored version must also be compatible.
         """
         # retrieve stored instance (if suitable)
-        ret: Optional[StoredMetadata] = self._objs.get(schema_name)
+        if objs is None:
+            objs = self._objs
+        ret: Optional[StoredMetadata] = objs.get(schema_name)
         if not version:
             return ret  # no specified version -> anything goes
         # otherwise: only return if it is compatible
@@ -300,8 +305,10 @@ class MetadorMeta:
                 yield obj.schema
             return
 
+        objs = self._objs  # (look at the container once, this runs for every queried node)
+
         # try exact schema (in any compatible version, if version specified)
-        if obj := self._get_raw(schema_name, schema_ver):
+        if obj := self._get_raw(schema_name, schema_ver, objs):
             yield obj.schema
 
         # next, try compatible child schemas of compatible versions of requested schema
@@ -311,7 +318,7 @@ class MetadorMeta:
                 for ref in self._mc.metador.schemas.versions(schema_name, schema_ver)
             )
         )
-        avail = {self._get_raw(s).schema for s in self.keys()}
+        avail = {obj.schema for obj in objs.values()}
         for s_ref in avail.intersection(compat):
             yield s_ref
 
